@@ -14,7 +14,8 @@ LEVEL = "other"
 
 
 def guards_of(I, fn_suffix):
-    return [it for it in AN.flat_trace(I.trace.items) if it[0][0] == "guard" and it[0][4].endswith(fn_suffix)]
+    # the whole dynamic extent of the run (a guard may live in a fallible helper the entry point calls with `?`)
+    return [it for it in AN.flat_trace(I.trace.items) if it[0][0] == "guard"]
 
 
 def exp_iter_rule(ck, F):
